@@ -27,6 +27,7 @@ import (
 	"github.com/invopop/gobl/verifharness/internal/corpus"
 	"github.com/invopop/gobl/verifharness/internal/docgen"
 	"github.com/invopop/gobl/verifharness/internal/jsontree"
+	"github.com/invopop/gobl/verifharness/internal/pubdata"
 	"github.com/invopop/gobl/verifharness/internal/refcalc"
 	"github.com/invopop/gobl/verifharness/internal/vh"
 	"pgregory.net/rapid"
@@ -74,6 +75,7 @@ func diffPath(a, b []byte) string {
 	for _, n := range nb {
 		mb[n.Ptr] = n
 	}
+	digest := ""
 	for _, n := range na {
 		if n.Kind == "object" || n.Kind == "array" {
 			continue
@@ -83,6 +85,11 @@ func diffPath(a, b []byte) string {
 			return n.Ptr + " (removed)"
 		}
 		if !jsontree.Equal(n.Value, o.Value) {
+			if strings.HasPrefix(n.Ptr, "/head/dig/") {
+				// the digest follows from the document: name what changed there
+				digest = n.Ptr
+				continue
+			}
 			return n.Ptr
 		}
 	}
@@ -94,6 +101,9 @@ func diffPath(a, b []byte) string {
 		if !ma[n.Ptr] {
 			return n.Ptr + " (added)"
 		}
+	}
+	if digest != "" {
+		return digest
 	}
 	return "(member order)"
 }
@@ -723,15 +733,177 @@ func runCross(t *testing.T, r *vh.Runner) {
 	}
 }
 
+// ---------------------------------------------------------------------------
+// (viii) regime x addon x rate key / tag sweep: a minimal invoice per combination
+
+type MatrixCase struct {
+	Regime  string `json:"regime"`
+	Addon   string `json:"addon,omitempty"`
+	Cat     string `json:"cat,omitempty"`
+	Rate    string `json:"rate,omitempty"`
+	Percent string `json:"percent,omitempty"`
+	Tag     string `json:"tag,omitempty"`
+	// Customer is the country of the customer's tax identity (default: the regime)
+	Customer string `json:"customer,omitempty"`
+}
+
+func (c MatrixCase) doc() []byte {
+	regs, _ := pubdata.Regimes()
+	cur := "EUR"
+	if r := regs[c.Regime]; r != nil && r.Currency != "" {
+		cur = r.Currency
+	}
+	combo := map[string]any{}
+	if c.Cat != "" {
+		combo["cat"] = c.Cat
+		if c.Rate != "" {
+			combo["rate"] = c.Rate
+		}
+		if c.Percent != "" {
+			combo["percent"] = c.Percent
+		}
+	}
+	line := map[string]any{"quantity": "3", "item": map[string]any{"name": "Item", "price": "33.33"}}
+	if c.Cat != "" {
+		line["taxes"] = []any{combo}
+	}
+	customer := c.Regime
+	if c.Customer != "" {
+		customer = c.Customer
+	}
+	inv := map[string]any{
+		"$schema":    "https://gobl.org/draft-0/bill/invoice",
+		"$regime":    c.Regime,
+		"uuid":       "0190f5f0-7f3c-7000-8000-0123456789ab",
+		"series":     "MX",
+		"code":       "0001",
+		"issue_date": "2024-06-13",
+		"currency":   cur,
+		"supplier":   map[string]any{"name": "Supplier", "tax_id": map[string]any{"country": c.Regime}},
+		"customer":   map[string]any{"name": "Customer", "tax_id": map[string]any{"country": customer}},
+		"lines":      []any{line},
+	}
+	if c.Addon != "" {
+		inv["$addons"] = []any{c.Addon}
+	}
+	if c.Tag != "" {
+		inv["$tags"] = []any{c.Tag}
+	}
+	data, _ := json.Marshal(inv)
+	return data
+}
+
+var generalTags = []string{"simplified", "reverse-charge", "self-billed", "customer-rates", "partial", "b2g", "export", "bypass"}
+
+func enumMatrix(yield func(MatrixCase) bool) {
+	cfg := vh.Cfg()
+	regs, list := pubdata.Regimes()
+	defs := pubdata.MustPublished()
+	addons := append([]string{""}, defs.AddonKeys...)
+	i := 0
+	emit := func(c MatrixCase) bool {
+		i++
+		if i%cfg.Shards != cfg.Shard {
+			return true
+		}
+		return yield(c)
+	}
+	for _, cc := range list {
+		reg := regs[cc]
+		for _, a := range addons {
+			for _, cat := range reg.Categories {
+				for _, r := range cat.Rates {
+					if !emit(MatrixCase{Regime: cc, Addon: a, Cat: cat.Code, Rate: r.Key}) {
+						return
+					}
+				}
+				for _, pct := range []string{"", "0%", "10%"} {
+					if !emit(MatrixCase{Regime: cc, Addon: a, Cat: cat.Code, Percent: pct}) {
+						return
+					}
+				}
+			}
+			tags := append([]string{}, generalTags...)
+			if pr := defs.Regimes[cc]; pr != nil {
+				tags = append(tags, pr.Tags["bill/invoice"]...)
+			}
+			if pa := defs.Addons[a]; pa != nil {
+				tags = append(tags, pa.Tags["bill/invoice"]...)
+			}
+			seen := map[string]bool{}
+			for _, tg := range tags {
+				if seen[tg] {
+					continue
+				}
+				seen[tg] = true
+				mc := MatrixCase{Regime: cc, Addon: a, Tag: tg}
+				if len(reg.Categories) > 0 {
+					mc.Cat = reg.Categories[0].Code
+					mc.Percent = "10%"
+					for _, r := range reg.Categories[0].Rates {
+						if r.HasValues && !r.Qualified {
+							mc.Rate, mc.Percent = r.Key, ""
+							break
+						}
+					}
+				}
+				if !emit(mc) {
+					return
+				}
+				// and with a customer from elsewhere (EU, non-EU, alternative code)
+				for _, cust := range []string{"ES", "PT", "GR", "US", "XI"} {
+					if cust == cc {
+						continue
+					}
+					mc.Customer = cust
+					if !emit(mc) {
+						return
+					}
+				}
+			}
+		}
+	}
+}
+
+func judgeMatrix(c MatrixCase, o *vh.Obs) {
+	if c.Addon != "" {
+		o.Class("with-addon")
+	}
+	if c.Rate != "" {
+		o.Class("rate-key")
+	}
+	if c.Tag != "" {
+		o.Class("tagged")
+	}
+	if c.Customer != "" {
+		o.Class("foreign-customer")
+	}
+	b1, ok := fixpoint(c.doc(), false, "", o)
+	if !ok {
+		return
+	}
+	if c.Addon != "" || c.Tag != "" || c.Rate != "" {
+		o.NonTrivial()
+	}
+	if bytes.Contains(b1, []byte(`"ext"`)) {
+		o.Class("extensions-assigned")
+	}
+	if bytes.Contains(b1, []byte(`"notes"`)) {
+		o.Class("scenario-note")
+	}
+	readOnly(b1, o)
+}
+
 func init() {
 	vh.Describe(
-		"(i) every example document of every schema; (ii) generated invoices / orders / deliveries (C01 variety); (iii) example documents with 1-3 string fields (codes, series, identities, addresses, notes, names) replaced by hostile strings (spaces, doubled separators, non-ASCII, leading invalid characters, country prefixes); (iv) random histories of up to 12 steps of calculate / serialise+parse / validate / digest / verify / extract / sign / re-sign / clone over examples; (v) every published regime / addon / catalogue file parsed by its $schema and serialised again; (vi) normaliser laws on hostile strings; (vii) the calculated bytes of every example and of 40 generated documents recomputed in fresh processes with other GOMAXPROCS. Oracle: B1 = marshal(calc(parse(src))), marshal(parse(B1)) == B1, marshal(calc(parse(B1))) == B1 byte for byte with the same digest (also a third time), read-only operations leave marshal(env) unchanged, identical bytes across processes. Non-trivial: the case had something to normalise, round or reorder (hostile strings, rounding remainders, >= 2 history steps).",
+		"(i) every example document of every schema; (ii) generated invoices / orders / deliveries (C01 variety); (iii) example documents with 1-3 string fields (codes, series, identities, addresses, notes, names) replaced by hostile strings (spaces, doubled separators, non-ASCII, leading invalid characters, country prefixes); (iv) random histories of up to 12 steps of calculate / serialise+parse / validate / digest / verify / extract / sign / re-sign / clone over examples; (v) every published regime / addon / catalogue file parsed by its $schema and serialised again; (vi) normaliser laws on hostile strings; (viii) a minimal invoice for every registered regime x every published addon (and none) x every rate key of every category (plus explicit 0% / 10% / no percentage) and x every general, regime and addon invoice tag with a customer of the same and of five other countries; (vii) the calculated bytes of every example and of 40 generated documents recomputed in fresh processes with other GOMAXPROCS. Oracle: B1 = marshal(calc(parse(src))), marshal(parse(B1)) == B1, marshal(calc(parse(B1))) == B1 byte for byte with the same digest (also a third time), read-only operations leave marshal(env) unchanged, identical bytes across processes. Non-trivial: the case had something to normalise, round or reorder (hostile strings, rounding remainders, >= 2 history steps).",
 		"identifiers and dates are pinned (explicit uuid / issue_date, fixed header uuid); signatures are random and excluded from byte comparisons",
 		"documents with a fixed amount finer than its presented precision are a recorded finding (excluded by signature, counted)",
 		"a panic on a hostile string is reported by C14, not here",
 	)
 	vh.Enum("corpus", enumCorpus, judgeCorpus)
 	vh.Enum("definitions", enumDefinitions, judgeDefinition)
+	vh.Enum("regime_addon_matrix", enumMatrix, judgeMatrix)
 	vh.Rapid("generated", 12_000, 800_000, func(t *rapid.T) docgen.Plan { return docgen.GenPlan(t, docgen.Opts{MaxLines: 5}) }, judgePlan)
 	vh.Rapid("stress", 6_000, 400_000, genStress, judgeStress)
 	vh.Rapid("histories", 1_500, 100_000, genHistory, judgeHistory)
